@@ -19,6 +19,7 @@ func (vAddr) String() string  { return "verif" }
 
 // vTransport is the client-side net.Conn handed to NewConn.
 type vTransport struct {
+	errWithData     bool // the transport hands over its last bytes together with its final error
 	in      []byte // bytes the client sends
 	rpos    int
 	chunked bool  // Read returns a nondeterministic 1, 2 or all available bytes
@@ -73,6 +74,12 @@ func (t *vTransport) Read(b []byte) (int, error) {
 	}
 	copy(b, t.in[t.rpos:t.rpos+n])
 	t.rpos += n
+	if t.errWithData && t.rpos == len(t.in) {
+		if t.endErr != nil {
+			return n, t.endErr
+		}
+		return n, io.EOF
+	}
 	return n, nil
 }
 
